@@ -855,3 +855,196 @@ theorem run_invM (s : St) (ops : List Op) (h : InvM s) : InvM (run s ops) := by
   | cons op ops ih => exact ih _ (step_invM s op h)
 
 end AkVerif.Conn
+
+namespace AkVerif.Conn
+open AkVerif.Wire
+
+/-! ### ghost invariant: the correlated requests in flight carry consecutive ordinals -/
+
+def corrSeqNos (reqs : List Req) : List Nat := (reqs.filter (fun r => r.corr.isSome)).map (·.seqNo)
+
+structure InvG (s : St) : Prop where
+  base_lt : s.base < 2 ^ 31
+  ctr : s.counter = corrSeq s.base s.sent
+  corr_seq : ∀ r ∈ s.reqs, ∀ c, r.corr = some c → c = corrSeq s.base r.seqNo
+  len_le : (corrSeqNos s.reqs).length ≤ s.sent
+  window : corrSeqNos s.reqs = List.range' (s.sent + 1 - (corrSeqNos s.reqs).length) (corrSeqNos s.reqs).length
+
+theorem corrSeqNos_mark (p : Req → Bool) (l : List Req) : corrSeqNos (l.map (mark p)) = corrSeqNos l := by
+  unfold corrSeqNos
+  induction l with
+  | nil => rfl
+  | cons r rest ih =>
+    have hc : (mark p r).corr = r.corr := by unfold mark; split <;> rfl
+    have hs : (mark p r).seqNo = r.seqNo := by unfold mark; split <;> rfl
+    simp only [List.map_cons, List.filter_cons, hc]
+    split
+    · simp only [List.map_cons, hs]; rw [ih]
+    · exact ih
+
+theorem resolveWhere_invG (p : Req → Bool) (o : Outcome) (s : St) (h : InvG s) : InvG (resolveWhere p o s) := by
+  have hr : (resolveWhere p o s).reqs = s.reqs.map (mark p) := rfl
+  refine ⟨h.base_lt, h.ctr, ?_, ?_, ?_⟩
+  · intro r hrm c hc
+    rw [hr] at hrm
+    obtain ⟨r0, h0, rfl⟩ := List.mem_map.mp hrm
+    have hcc : (mark p r0).corr = r0.corr := by unfold mark; split <;> rfl
+    have hss : (mark p r0).seqNo = r0.seqNo := by unfold mark; split <;> rfl
+    rw [hcc] at hc; rw [hss]; exact h.corr_seq r0 h0 c hc
+  · rw [hr, corrSeqNos_mark]; exact h.len_le
+  · rw [hr, corrSeqNos_mark]; exact h.window
+
+theorem corrSeqNos_cons (r : Req) (rest : List Req) :
+    corrSeqNos (r :: rest) = if r.corr.isSome then r.seqNo :: corrSeqNos rest else corrSeqNos rest := by
+  unfold corrSeqNos
+  simp only [List.filter_cons]
+  split <;> simp
+
+theorem corrSeqNos_nil : corrSeqNos [] = [] := rfl
+
+theorem close_invG (s : St) (h : InvG s) : InvG (close s) := by
+  unfold close
+  by_cases ho : s.isOpen = true
+  · simp only [ho, Bool.not_true, Bool.false_eq_true, if_false]
+    have hr := resolveWhere_invG (fun _ => true) Outcome.connErr s h
+    refine ⟨hr.base_lt, hr.ctr, ?_, ?_, ?_⟩
+    · intro r hrm; cases hrm
+    · show (corrSeqNos []).length ≤ _; rw [corrSeqNos_nil]; exact Nat.zero_le _
+    · show corrSeqNos [] = _; rw [corrSeqNos_nil]; rfl
+  · have : s.isOpen = false := by simpa using ho
+    simp only [this, Bool.not_false, if_true]; exact h
+
+theorem corrSeqNos_append (a b : List Req) : corrSeqNos (a ++ b) = corrSeqNos a ++ corrSeqNos b := by
+  unfold corrSeqNos; simp
+
+theorem send_invG (s : St) (c : Bool) (k : Kind) (h : InvG s) : InvG (send s c k) := by
+  unfold send
+  by_cases ho : s.isOpen = true
+  · simp only [ho, Bool.not_true, Bool.false_eq_true, if_false]
+    cases c with
+    | false =>
+      simp only [Bool.false_eq_true, if_false]
+      have hnew : ∀ (x : Req), x.corr = none → corrSeqNos (s.reqs ++ [x]) = corrSeqNos s.reqs := by
+        intro x hx
+        rw [corrSeqNos_append, corrSeqNos_cons, hx]; simp [corrSeqNos_nil]
+      refine ⟨h.base_lt, h.ctr, ?_, ?_, ?_⟩
+      · intro r hr c hc
+        simp only [List.mem_append, List.mem_singleton] at hr
+        rcases hr with hr | rfl
+        · exact h.corr_seq r hr c hc
+        · simp at hc
+      · show (corrSeqNos (s.reqs ++ _)).length ≤ s.sent
+        rw [hnew _ rfl]; exact h.len_le
+      · show corrSeqNos (s.reqs ++ _) = List.range' (s.sent + 1 - (corrSeqNos (s.reqs ++ _)).length) _
+        rw [hnew _ rfl]; exact h.window
+    | true =>
+      simp only [if_true]
+      have hnew : ∀ (x : Req), x.corr.isSome = true → x.seqNo = s.sent + 1 →
+          corrSeqNos (s.reqs ++ [x]) = corrSeqNos s.reqs ++ [s.sent + 1] := by
+        intro x hx hs
+        rw [corrSeqNos_append, corrSeqNos_cons, hx, hs]; simp [corrSeqNos_nil]
+      refine ⟨h.base_lt, ?_, ?_, ?_, ?_⟩
+      · show nextCorr s.counter = corrSeq s.base (s.sent + 1)
+        rw [corrSeq, h.ctr]
+      · intro r hr c hc
+        simp only [List.mem_append, List.mem_singleton] at hr
+        rcases hr with hr | rfl
+        · exact h.corr_seq r hr c hc
+        · simp only [Option.some.injEq] at hc
+          rw [← hc, corrSeq, h.ctr]
+      · show (corrSeqNos (s.reqs ++ _)).length ≤ s.sent + 1
+        rw [hnew _ rfl rfl, List.length_append]
+        have := h.len_le; simp; omega
+      · show corrSeqNos (s.reqs ++ _) = List.range' (s.sent + 1 + 1 - (corrSeqNos (s.reqs ++ _)).length) _
+        rw [hnew _ rfl rfl, List.length_append]
+        have hl := h.len_le
+        have hw := h.window
+        generalize corrSeqNos s.reqs = L at hl hw ⊢
+        simp only [List.length_singleton]
+        rw [List.range'_concat]
+        have e1 : s.sent + 1 + 1 - (L.length + 1) = s.sent + 1 - L.length := by omega
+        rw [e1, ← hw]
+        congr 1
+        simp; omega
+  · have hc : s.isOpen = false := by simpa using ho
+    simp only [hc, Bool.not_false, if_true]
+    exact ⟨h.base_lt, h.ctr, h.corr_seq, h.len_le, h.window⟩
+
+/-- dropping the head request keeps the window -/
+theorem pop_invG (s : St) (r : Req) (rest : List Req) (out : List (Nat × Outcome)) (h : InvG s)
+    (hq : s.reqs = r :: rest) : InvG (s.setRO rest out) := by
+  have hmem : ∀ x ∈ rest, x ∈ s.reqs := fun x hx => hq ▸ List.mem_cons_of_mem _ hx
+  have hw := h.window
+  have hl := h.len_le
+  rw [hq, corrSeqNos_cons] at hw hl
+  refine ⟨h.base_lt, h.ctr, fun x hx => h.corr_seq x (hmem x hx), ?_, ?_⟩
+  · show (corrSeqNos rest).length ≤ s.sent
+    split at hl
+    · simp only [List.length_cons] at hl; omega
+    · exact hl
+  · show corrSeqNos rest = List.range' (s.sent + 1 - (corrSeqNos rest).length) (corrSeqNos rest).length
+    split at hw
+    · rename_i hsome
+      simp only [hsome, if_true, List.length_cons] at hl
+      simp only [List.length_cons] at hw
+      generalize corrSeqNos rest = L at hw hl ⊢
+      rw [List.range'_succ] at hw
+      injection hw with _ hw
+      have e : s.sent + 1 - (L.length + 1) + 1 = s.sent + 1 - L.length := by omega
+      rw [e] at hw; exact hw
+    · exact hw
+
+theorem handleFrame_invG (s : St) (f : Bytes) (h : InvG s) : InvG (handleFrame s f) := by
+  unfold handleFrame
+  split
+  · exact close_invG s h
+  · rename_i r rest hq
+    split
+    · exact pop_invG s r rest _ h hq
+    · split
+      · exact close_invG s h
+      · split
+        · exact close_invG _ (resolveWhere_invG _ _ s h)
+        · split
+          · exact pop_invG s r rest _ h hq
+          · split
+            · exact close_invG s h
+            · exact pop_invG s r rest _ h hq
+
+theorem withBuf_invG (s : St) (x : Bytes) (h : InvG s) : InvG (s.withBuf x) :=
+  ⟨h.base_lt, h.ctr, h.corr_seq, h.len_le, h.window⟩
+
+theorem pump_invG (fuel : Nat) : ∀ s : St, InvG s → InvG (pump fuel s) := by
+  induction fuel with
+  | zero => intro s h; exact h
+  | succ n ih =>
+    intro s h
+    rw [pump]
+    split
+    · exact h
+    · split
+      · exact h
+      · exact close_invG s h
+      · exact ih _ (handleFrame_invG _ _ (withBuf_invG s _ h))
+
+theorem step_invG (s : St) (op : Op) (h : InvG s) : InvG (step s op) := by
+  cases op with
+  | send c k => exact send_invG s c k h
+  | feed ch =>
+    simp only [step, feed]
+    split
+    · exact h
+    · exact pump_invG _ _ (withBuf_invG s _ h)
+  | advance dt =>
+    simp only [step, advance]
+    exact resolveWhere_invG _ _ _ ⟨h.base_lt, h.ctr, h.corr_seq, h.len_le, h.window⟩
+  | cancel id => exact resolveWhere_invG _ _ s h
+  | eof => exact close_invG s h
+  | close => exact close_invG s h
+
+theorem run_invG (s : St) (ops : List Op) (h : InvG s) : InvG (run s ops) := by
+  induction ops generalizing s with
+  | nil => exact h
+  | cons op ops ih => exact ih _ (step_invG s op h)
+
+end AkVerif.Conn
